@@ -89,6 +89,9 @@ void ezc3d::c3d::write(const std::string& filePath) const
 void ezc3d::c3d::readFile(unsigned int nByteToRead, char * c, int nByteFromPrevious,
                      const  std::ios_base::seekdir &pos)
 {
+#ifdef EZC3D_VERIF
+    ezc3d_verif_on_read(nByteToRead);
+#endif
     if (pos != 1)
         this->seekg (nByteFromPrevious, pos); // Move to number analogs
     this->read (c, nByteToRead);
